@@ -83,7 +83,16 @@ def r2(ctx, prog):
 
 
 def sigaction_calls(f):
-    return [st for st in f.stmts if st and st['k'] == 'CallExpr' and st.get('callee') in ('sigaction', 'signal')]
+    """calls that change a disposition: signal(), and sigaction() with a non-null new action (a pure query passes nullptr)"""
+    out = []
+    for st in f.stmts:
+        if st and st['k'] == 'CallExpr' and st.get('callee') in ('sigaction', 'signal'):
+            if st['callee'] == 'sigaction' and len(st.get('args', [])) >= 2:
+                a = f.s(f.strip_casts(st['args'][1]))
+                if a is not None and (a['k'] in ('CXXNullPtrLiteralExpr', 'GNUNullExpr') or a.get('cv') == 0):
+                    continue
+            out.append(st)
+    return out
 
 
 def r3(ctx, prog):
@@ -226,6 +235,55 @@ def r8(ctx, prog):
                'one disable() leaves a live subscription behind' % (st.get('cls', '?').split('<')[0], st.get('fn')), where=s.loc(st['i']))
 
 
+def r9(ctx, prog):
+    ctx.rule('C04.R9', 'A4 depends-on: the action the framework installs is its own — every store into the flags and the mask of the sigaction it installs is a constant '
+             '(SA_SIGINFO, an emptied mask): nothing is taken over from the handler that was installed before, whose SA_RESETHAND / SA_NODEFER / mask would change how '
+             'many deliveries reach the subscribers', floor=1)
+    f = prog.fn1(CL + '::subscribeSignal')
+    inst = [c for c in sigaction_calls(f) if c['callee'] == 'sigaction']
+    if not inst:
+        ctx.ob('C04.R9', '%s|own-flags' % f.name, True, 'installed through signal(): no flags to inherit')
+        return
+    newh = f.s(f.strip_casts(inst[0]['args'][1]))
+    roots = {f.stmts[x].get('d') for x in f.walk(inst[0]['args'][1]) if f.stmts[x]['k'] == 'DeclRefExpr' and f.stmts[x].get('dk') == 'Var'}
+    bad, n = [], 0
+    for st in f.stmts:
+        if st and st['k'] in ('BinaryOperator', 'CompoundAssignOperator') and st.get('op', '').endswith('=') and st['op'] not in ('==', '!=', '<=', '>='):
+            lhs = f.s(f.strip_casts(st['ch'][0]))
+            if lhs and lhs['k'] == 'MemberExpr' and lhs.get('n') in ('sa_flags', 'sa_mask') and \
+                    any(f.stmts[x]['k'] == 'DeclRefExpr' and f.stmts[x].get('d') in roots for x in f.walk(lhs['i'])):
+                n += 1
+                if (f.s(st['ch'][1]) or {}).get('cv') is None:
+                    bad.append(st)
+    if n < 1:
+        raise AnalysisBroken('subscribeSignal: no store into the installed action\'s sa_flags found')
+    ctx.ob('C04.R9', '%s|own-flags' % f.name, not bad, 'sa_flags of the installed action is a constant; the mask is emptied' if not bad else
+           'the installed action takes %s from another sigaction (%s): with SA_RESETHAND in the inherited flags the kernel resets the disposition after the first delivery — '
+           'later deliveries reach no subscriber and take the default action' % (f.path(bad[0]['ch'][0]), f.loc(bad[0]['i'])), where=f.loc(bad[0]['i']) if bad else f.loc(inst[0]['i']))
+
+
+def r10(ctx, prog):
+    ctx.rule('C04.R10', 'A6 deferred destruction names the object, not the slot: a task posted to the loop that destroys the signal pipe\'s FdEvent deletes a pointer it captured by '
+             'value after it was taken out of the member (swap / copy-then-null) — a task that reads the member when it runs destroys whatever a re-subscription has put '
+             'there in the meantime', floor=2)
+    n = 0
+    for name in ('subscribeSignal', 'unsubscribeSignal'):
+        f = prog.fn1(CL + '::' + name)
+        for l in prog.lambdas_of.get(f.key, []):
+            for st in l.stmts:
+                if st and st['k'] == 'CXXDeleteExpr':
+                    n += 1
+                    op = l.s(l.strip_casts(st['ch'][0])) if st.get('ch') else None
+                    fld = l.field_of(st['ch'][0]) if st.get('ch') else None
+                    ok = op is not None and op['k'] == 'DeclRefExpr' and not fld
+                    ctx.ob('C04.R10', '%s|deferred-delete' % locks.site_name(prog, l), ok, 'the deferred task deletes the captured pointer %s' % (op.get('n') if op else '?') if ok else
+                           'the deferred task deletes the member %s as it is when the task runs: if the loop subscribes again before then (a one-shot event re-armed from its '
+                           'callback, disable(); enable();) the freshly created, enabled event is destroyed and no subscriber of this loop is ever called again' % (fld or l.path(st['ch'][0])),
+                           where=l.loc(st['i']))
+    if n < 2:
+        raise AnalysisBroken('expected 2 deferred deletes of the signal read event, found %d' % n)
+
+
 def run(ctx):
     prog = extract('ALL' if ctx.tier == 'thorough' else SCOPE)
     ctx.guard(r1, ctx, prog)
@@ -236,4 +294,6 @@ def run(ctx):
     ctx.guard(r6, ctx, prog)
     ctx.guard(r7, ctx, prog)
     ctx.guard(r8, ctx, prog)
+    ctx.guard(r9, ctx, prog)
+    ctx.guard(r10, ctx, prog)
     return prog
